@@ -19,7 +19,8 @@ def depth1():
 
 def depth2():
     progs = [('u', u, ('u', v, X)) for u in PRIMS for v in PRIMS]
-    progs += [('b', op, ('u', u, X), ('u', v, X)) for op in '+-*/' for u in PRIMS for v in PRIMS]
+    progs += [('b', op, ('u', u, X), ('u', v, X)) for op in '-/' for u in PRIMS for v in PRIMS]
+    progs += [('b', op, ('u', u, X), ('u', v, X)) for op in '+*' for i, u in enumerate(PRIMS) for v in PRIMS[i:]]
     # polynomials and rational functions
     progs += [
         ('b', '+', ('b', '-', ('p', X, 3), ('s', 2, ('p', X, 2))), ('b', '+', ('s', 0.5, X), ('c', 1))),
@@ -33,7 +34,7 @@ def depth2():
     return progs
 
 
-INNER3 = ['exp', 'sin', 'cos', 'tanh', 'arctan', 'sqrt', 'log1p', 'arcsinh']
+INNER3 = ['exp', 'sin', 'tanh', 'sqrt']
 
 
 def depth3():
